@@ -561,6 +561,33 @@ def run(ctx):
               "lcd_lines construction")
 
 
+    lcd_cell_presence(ctx, "R7")
+
+
+def lcd_cell_presence(ctx, rule):
+    """The LCD cell of a line is filled iff the line is a member of the selected cycle: the per-line value handed to the
+    cell formatter is `<members>.get(line)` - None for non-members, the edge latency (possibly 0.0: eliminated moves)
+    for members - so the formatter must test `is None`, not truthiness."""
+    cv = ctx.func("Frontend.combined_view")
+    lc = ctx.func("Frontend._get_lcd_cp_ports")
+    call = C.calls_to(cv.node, "_get_lcd_cp_ports")
+    if not call or len(call[0].args) < 3 or len(lc.params()) < 4:
+        ctx.unknown(rule, "LCD cell presence", cv.where(), "call of _get_lcd_cp_ports(line, cp, lcd value) not found")
+        return
+    arg = call[0].args[2]
+    via_get = isinstance(arg, ast.Call) and isinstance(arg.func, ast.Attribute) and arg.func.attr == "get" and len(arg.args) == 1
+    p = lc.params()[3]
+    tests = C.presence_tests(lc.node, p)
+    bad = [n for n, v in tests if v is False]
+    ctx.judge(bool(tests) and not bad and all(v is True for _, v in tests), via_get and bool(tests) and all(v is not None for _, v in tests),
+              rule, "LCD cell filled for every member of the selected cycle (presence by `is None`)",
+              lc.where(bad[0]) if bad else lc.where(),
+              "`%s` receives `%s` - None for lines outside the selected cycle, the edge latency for members - and tests it by "
+              "truthiness: a member whose latency is 0.0 (an eliminated register move such as zen2 `vmovapd %%ymm4, %%ymm0`) is "
+              "treated as a non-member, its LCD cell stays blank and the column no longer marks the cycle that the summary "
+              "reports" % (p, U(arg)), lc.qname, "lcd cell presence test")
+
+
 def parent_is_body(node, loop):
     """node is a statement directly in the loop body (executed once per iteration)."""
     from ..srcmodel import parent
